@@ -44,6 +44,7 @@ fn main() {
         "zones-merge" => streams::zone::run_merge(&mut r, n, &mut out),
         "cache" => streams::cache::run(&mut r, n, &mut out),
         "cache-threads" => streams::cache::run_threads(&mut r, n, &mut out),
+        "upstream" => streams::upstream::run(&mut r, n, &mut out),
         other => {
             eprintln!("unknown stream {other}");
             std::process::exit(2);
